@@ -15,12 +15,16 @@
     limit, any offset, new or suspended objects): when ParseUIntVal (= ParseExpiresVal) / ParseCLenVal /
     ParseCSeqVal succeed, the reported field is a non-empty string of digits of the buffer and the reported number
     is exactly its decimal value (`value_meaning` spells this out with the model's `Get`).
-  NOT yet proved at run level: the Contact expires / q parameters and the URI port as reported after a whole
-  name-addr / URI parse (their accumulators are proved exact above); checked by the oracle against math/big.
+  * **run level, URI port** (`port_value_exact`, `port_zero`, `port_numdone`, `port_meaning`; Proofs/UriLink.lean): for
+    every URI accepted by ParseURI the reported port field consists of digits, PortNo is exactly their decimal value
+    and ≤ 65535 (this is the statement that defect F20 violated).
+  NOT yet proved at run level: the Contact expires / q parameters as reported after a whole name-addr parse (their
+  accumulators are proved exact above); checked by the oracle against math/big.
 -/
 import Sipsp.Proofs.Num
 import Sipsp.Proofs.NumRun
 import Sipsp.Model.Msg
+import Sipsp.Proofs.UriLink
 
 namespace Sipsp.C10
 open Sipsp
@@ -142,5 +146,19 @@ example : AllDigits [53, 48, 48] ∧ decOf [53, 48, 48] = 500 := by
 /-- test: a Content-Length value parsed from a new object -/
 example : (parseCLenVal "  4711\r\nX".toUTF8.data 0 {}).2.1 = Err.ok ∧ (parseCLenVal "  4711\r\nX".toUTF8.data 0 {}).2.2.uiVal = 4711 := by
   decide +kernel
+
+/-! ### run level, URI port (Proofs/UriLink.lean) -/
+
+/-- **run level, URI port**: for every URI accepted by ParseURI the bytes of the reported port field are digits, `PortNo` is exactly their decimal value and ≤ 65535 -/
+theorem port_value_exact : type_of% @ul_port_exact := @ul_port_exact
+
+/-- no port or an empty port: `PortNo = 0` -/
+theorem port_zero : type_of% @ul_port_zero := @ul_port_zero
+
+/-- a non-empty port field, in the phrasing used for Content-Length / CSeq (`NumDone`), plus the range -/
+theorem port_numdone : type_of% @ul_port_numdone := @ul_port_numdone
+
+/-- spelled out with `Get` -/
+theorem port_meaning : type_of% @ul_port_meaning := @ul_port_meaning
 
 end Sipsp.C10
